@@ -68,7 +68,19 @@ LocProbes == {"join(7..3,4..1)", "join(2..1,2..1)", "join(5..4,5..2)", "order(1.
               "complement(join(9..7,7..5))", "join(1^2,2..1)", "join(4..6,7..5)", "order(2..1)", "join(1.5,3.2)", "join(2.1,1..2)"}
 FtProbes == {"     gene            join(7..3,4..1)\n", "     gene            join(2..1,2..1)\n                     /gene=\"x\"\n",
              "     gene            3..1\n     CDS             join(5..4,5..2)\n"}
-GrSeq == SetToSeq(UNION {{<<g, s>> : s \in GrStrings(g)} : g \in {Grammars[j] : j \in 1..Len(Grammars)}}
+\* small whole records that must be reported as errors (no ORIGIN and no CONTIG although residues are declared,
+\* negative or signed lengths, a second LOCUS line inside a record, ORIGIN without a terminator)
+GbErr == {"LOCUS       T                 -5 bp    DNA     linear   UNA 01-JAN-2000\nDEFINITION  t.\nACCESSION   T\n//\n",
+          "LOCUS       T                  5 bp    DNA     linear   UNA 01-JAN-2000\nDEFINITION  t.\nACCESSION   T\n//\n",
+          "LOCUS       T                 -1 bp    DNA     linear   UNA 01-JAN-2000\nORIGIN      \n//\n",
+          "LOCUS       T                  5 bp    DNA     linear   UNA 01-JAN-2000\nORIGIN      \n        1 acgta\n",
+          "LOCUS       T                  5 bp    DNA     linear   UNA 01-JAN-2000\nFEATURES             Location/Qualifiers\n     gene            1..2\n//\n",
+          "LOCUS       T                  3 bp    DNA     linear   UNA 01-JAN-2000\nORIGIN      \n        1 acgta\n//\n"}
+\* small whole records that are fine (controls: the probes above differ from these in one respect)
+GbAny == {"LOCUS       T                  0 bp    DNA     linear   UNA 01-JAN-2000\nDEFINITION  t.\n//\n",
+          "LOCUS       T                  5 bp    DNA     linear   UNA 01-JAN-2000\nORIGIN      \n        1 acgta\n//\n",
+          "LOCUS       T                 +5 bp    DNA     linear   UNA 01-JAN-2000\nORIGIN      \n        1 acgta\n//\n"}
+GrSeq == SetToSeq({<<"gbtext-err", s>> : s \in GbErr} \cup {<<"gbtext-any", s>> : s \in GbAny} \cup UNION {{<<g, s>> : s \in GrStrings(g)} : g \in {Grammars[j] : j \in 1..Len(Grammars)}}
                   \cup {<<"location", s>> : s \in LocProbes} \cup {<<"locator", s>> : s \in LocProbes}
                   \cup {<<"locator", s \o "@^-2..$+2">> : s \in LocProbes} \cup {<<"ftable", s>> : s \in FtProbes})
 
